@@ -116,12 +116,14 @@ def c02(r):
     ctx = r.ctx
     w = ctx["weather"]
     method = int(ctx["irr"]["irrigation_method"])
+    prev_day, last_day = None, None
     for d in r.days:
         t = d["t"]
         row = r.flux[t]
         gs = gs_of(r, t)
         fm = fm_of(ctx, gs)
         L = d.get("ledger", {})
+        prev_day, last_day = last_day, d
         # effective curve number bound is the property's own quantifier
         cn_eff = ctx["soil"]["cn"] * (1 + (fm["curve_number_adj_pct"] if fm["curve_number_adj"] else 0) / 100.0)
         if cn_eff > 100:
@@ -131,7 +133,7 @@ def c02(r):
         eff = float(ctx["irr"]["AppEff"]) if gs else 100.0
         applied = p + (irr * eff / 100.0 if gs else 0.0)
         tol = 1e-9 * max(1.0, applied)
-        if abs(row[F_INFL] + row[F_RUNOFF] - applied) > tol:
+        if not (abs(row[F_INFL] + row[F_RUNOFF] - applied) <= tol):   # NaN counts as a violation
             out.append(V("C02", "partition-sum", r, t, "infiltration + runoff != rain + applied irrigation",
                          infl=row[F_INFL], runoff=row[F_RUNOFF], rain=p, irr=irr, eff=eff))
         if row[F_RUNOFF] < -tol:
@@ -140,7 +142,13 @@ def c02(r):
             out.append(V("C02", "runoff-exceeds", r, t, "runoff exceeds rain + irrigation + ponded water",
                          runoff=row[F_RUNOFF], applied=applied, pond0=d["pond0"]))
         if row[F_INFL] < -tol:
-            if fm["bunds"] and fm["z_bund"] > 0.001 or not d["pond0"] > 0 or -row[F_INFL] > d["pond0"] + tol:
+            # explained only on the day the bunds go: none today, bunds on the previous simulated day (or no previous
+            # consecutive day: the pond then comes from the initial/reset state), water ponded, and no more than that
+            pv = prev_day
+            removed_today = pv is None or pv["t"] != t - 1 or \
+                (lambda f: bool(f["bunds"]) and f["z_bund"] > 0.001)(fm_of(ctx, gs_of(r, pv["t"])))
+            if fm["bunds"] and fm["z_bund"] > 0.001 or not d["pond0"] > 0 or -row[F_INFL] > d["pond0"] + tol \
+                    or not removed_today:
                 out.append(V("C02", "infl-negative", r, t, "negative infiltration not explained by bund removal",
                              infl=row[F_INFL], pond0=d["pond0"], bunds=fm["bunds"]))
         if applied == 0 and d["pond0"] == 0 and (row[F_INFL] != 0 or row[F_RUNOFF] != 0):
@@ -166,6 +174,9 @@ def c03(r, tol=1e-12):
         fm = fm_of(ctx, gs)
         lo = th < P["th_dry"] - tol
         hi = th > P["th_s"] + tol
+        if not np.all(np.isfinite(th)) or not np.isfinite(r.flux[t, F_POND]):
+            i = int(np.argmax(~np.isfinite(th))) if not np.all(np.isfinite(th)) else -1
+            out.append(V("C03", "non-finite", r, t, "water content or ponding is not a finite number", comp=i))
         if np.any(lo):
             i = int(np.argmax(lo))
             out.append(V("C03", "below-airdry", r, t, "water content below air-dry", comp=i, th=th[i], th_dry=P["th_dry"][i]))
@@ -302,11 +313,11 @@ def c06(r):
         s = int(g[G_SEASON])
         c = ctx["crops"][s]
         rel = 1e-9
-        if abs(g[G_DRY] - (g[G_B] / 100.0) * g[G_HIADJ]) > rel * max(1, abs(g[G_DRY])):
+        if not (abs(g[G_DRY] - (g[G_B] / 100.0) * g[G_HIADJ]) <= rel * max(1, abs(g[G_DRY]))):
             out.append(V("C06", "dry-yield", r, t, "dry yield != biomass * adjusted HI", y=g[G_DRY], b=g[G_B], hi=g[G_HIADJ]))
         if c["YldWC"] and abs(g[G_FRESH] - g[G_DRY] / (c["YldWC"] / 100.0)) > rel * max(1, abs(g[G_FRESH])):
             out.append(V("C06", "fresh-yield", r, t, "fresh yield != dry yield / dry-matter fraction", fresh=g[G_FRESH], dry=g[G_DRY]))
-        if abs(g[G_YPOT] - (g[G_BNS] / 100.0) * g[G_HI]) > rel * max(1, abs(g[G_YPOT])):
+        if not (abs(g[G_YPOT] - (g[G_BNS] / 100.0) * g[G_HI]) <= rel * max(1, abs(g[G_YPOT]))):
             out.append(V("C06", "pot-yield", r, t, "potential yield != no-stress biomass * HI", ypot=g[G_YPOT], bns=g[G_BNS], hi=g[G_HI]))
         b0 = prev[G_B] if (prev is not None and int(prev[G_SEASON]) == s and prev[G_T] == g[G_T] - 1) else (0.0 if g[G_DAP] == 1 else None)
         if b0 is not None:
@@ -332,7 +343,7 @@ def c06(r):
             out.append(V("C06", "summary-date", r, hstep, "harvest date is not the day after the harvest step", date=str(hdate), exp=exp_date))
         days = [d["t"] for d in r.days if int(r.flux[d["t"], F_SEASON]) == s and gs_of(r, d["t"])]
         tot = float(np.sum(r.flux[days, F_IRR])) if days else 0.0
-        if abs(tot - irrtot) > 1e-6 * max(1, abs(tot)):
+        if not (abs(tot - irrtot) <= 1e-6 * max(1, abs(tot))):
             out.append(V("C06", "summary-irr", r, hstep, "seasonal irrigation != sum of daily irrigation", seasonal=irrtot, summed=tot, method=method))
     if seen != sorted(set(seen)):
         out.append(V("C06", "summary-order", r, -1, "summary rows not unique / in season order", seasons=seen))
@@ -377,6 +388,10 @@ def c07(r):
             if s < 0 or s >= len(pl) or dap != t - pl[s] + 1:
                 out.append(V("C07", "dap", r, t, "days after planting do not count from the planting date", dap=dap, season=s,
                              planting=pl[s] if 0 <= s < len(pl) else None))
+            # the season is closed at the latest when the end of the day reaches the configured latest harvest date
+            if 0 <= s < len(hv) and t + 1 > hv[s]:
+                out.append(V("C07", "past-harvest-date", r, t, "growing day simulated on/after the season's latest harvest date",
+                             season=s, harvest_idx=int(hv[s])))
         elif dap != 0:
             out.append(V("C07", "dap", r, t, "dap non-zero outside season", dap=dap))
     # skipping / contiguity
@@ -392,6 +407,10 @@ def c07(r):
         if not r.finished:
             out.append(V("C07", "termination", r, last, "run did not terminate"))
         hsteps = {row[0]: row[3] for row in (r.summary or [])}
+        for k, h in hsteps.items():
+            if 0 <= k < len(hv) and h + 1 > hv[k]:
+                out.append(V("C07", "harvest-after-latest-date", r, int(h), "harvest recorded after the season's latest harvest date",
+                             season=int(k), harvest_idx=int(hv[k])))
         nseas = ctx["n_seasons"]
         exp_last = n - 2
         if (nseas - 1) in hsteps:
@@ -415,6 +434,7 @@ def c13(r):
         k = (datetime.date.fromisoformat(dte[:10]) - start).days
         sched[k] = float(dep)
     season_tot = {}
+    prev_post, last_post = None, None
     for d in r.days:
         t = d["t"]
         row = r.flux[t]
@@ -422,6 +442,7 @@ def c13(r):
         L = d.get("ledger", {})
         x = float(L.get("irr", 0.0))   # surface irrigation decided by the irrigation process
         s = int(row[F_SEASON])
+        prev_post, last_post = last_post, d.get("post")
         if not gs:
             if x != 0 or row[F_IRR] != 0:
                 out.append(V("C13", "offseason-irrigation", r, t, "irrigation outside a growing season", irr=x, irrday=row[F_IRR]))
@@ -454,7 +475,20 @@ def c13(r):
             if abs(x - want) > 1e-9:
                 out.append(V("C13", "constant-depth", r, t, "constant-depth irrigation not applied", irr=x, want=want))
         if method == 1 and "depletion" in L and L.get("taw", 0) > 0:
-            stage = int(L["irr_in"]["growth_stage"]) if L["irr_in"]["dap"] != 1 else 1
+            # the growth stage in force is the one reached at the end of the previous day, counted in time since
+            # germination (days or degree days after planting minus the germination delay) against the crop's
+            # canopy calendar; stage 1 on the first day of a season.  Computed here, not read from the model.
+            stage = 1
+            c = ctx["crops"][s] if 0 <= s < len(ctx["crops"]) else None
+            if dap != 1 and c is not None and prev_post is not None and prev_post.get("season") == s and \
+                    c.get("Canopy10Pct") is not None:
+                if int(c["CalendarType"]) == 1:
+                    tadj = prev_post["dap"] - prev_post["delayed_cds"]
+                else:
+                    tadj = prev_post["gdd_cum"] - prev_post["delayed_gdds"]
+                stage = 1 if tadj <= c["Canopy10Pct"] else 2 if tadj <= c["MaxCanopy"] else 3 if tadj <= c["Senescence"] else 4
+            elif dap != 1:
+                stage = int(L["irr_in"]["growth_stage"])
             smt = float(np.asarray(irr["SMT"], dtype=float)[stage - 1])
             trig = (L["depletion"] / L["taw"]) > 1 - smt / 100.0
             eff = ((100 - float(irr["AppEff"])) + 100) / 100.0
